@@ -209,7 +209,8 @@ impl Rig {
         for round in 0..2 {
             for (i, c) in self.clients.iter().enumerate() {
                 loop {
-                    match c.recv_from(&mut buf) {
+                    // only what THIS server sent (see util::recv_from_port)
+                    match recv_from_port(c, &mut buf, self.addr.port()) {
                         Ok((n, _)) => out.push((i, buf[..n].to_vec())),
                         Err(_) => break,
                     }
